@@ -192,14 +192,19 @@ Proof.
     destruct r as [t|e].
     + destruct R as [R V]. pose proof R as R'. destruct R' as (uid & l & rf & fk & -> & FK).
       intros H; injection H as <- <-. right. split; [reflexivity|]. exists s'. split; [exact T1|]. split; [exact I1|].
-      right. eexists. split; [reflexivity|]. split; [reflexivity|]. left. split; [reflexivity|]. right. auto.
+      right. eexists. split; [reflexivity|]. split; [reflexivity|]. left. split; [exact Eh|]. right. auto.
     + intros H; injection H as <- <-. right. split; [reflexivity|]. exists s'. split; [exact T1|]. split; [exact I1|].
-      right. eexists. split; [reflexivity|]. split; [reflexivity|]. left. split; [reflexivity|]. left. eauto.
+      right. eexists. split; [reflexivity|]. split; [reflexivity|]. left. split; [exact Eh|]. left. eauto.
   - destruct (index_get s (flat_key (w_cfg w) p i)) as [pl|] eqn:EG.
     2:{ intros H; injection H as <- <-. right. split; [reflexivity|]. exists s. split; [reflexivity|]. split; [exact IC|].
         left. do 2 eexists. split; [reflexivity|]. split; [reflexivity|]. split; [reflexivity|]. discriminate. }
     destruct (flat_get_visible _ _ _ _ _ _ Eh IC EG) as [KP VP].
-    match goal with |- context [match ?d with Some (cl, uid) => _ | None => _ end] => destruct d as [[cl uid]|] eqn:ED end.
+    remember (if needs_refresh s pl then None
+              else match index_get s (flat_key (w_cfg w) ch i) with
+                   | Some cl => match block_of_loc s cl with Some b => Some (cl, b_uid b) | None => None end
+                   | None => None
+                   end) as direct eqn:ED.
+    symmetry in ED. destruct direct as [[cl uid]|].
     + assert (GC : index_get s (flat_key (w_cfg w) ch i) = Some cl).
       { destruct (needs_refresh s pl); [discriminate|].
         destruct (index_get s (flat_key (w_cfg w) ch i)) as [cl'|]; [|discriminate].
@@ -224,12 +229,110 @@ Proof.
              eapply same_trans; [exact S2'|]. eapply same_trans; [apply same_write_block|apply same_unpin]. }
            intros H; injection H as <- <-. right. split; [reflexivity|]. eexists. split; [apply S3|].
            split; [eapply same_icov; eauto|]. right. eexists. split; [reflexivity|]. split; [reflexivity|].
-           right. split; [reflexivity|]. do 3 eexists. split; [reflexivity|]. auto.
+           right. split; [exact Eh|]. do 3 eexists. split; [reflexivity|]. auto.
         -- assert (S3 : same s (unpin (w_cfg w) s2 (b_uid b))) by (eapply same_trans; [exact S2'|apply same_unpin]).
            intros H; injection H as <- <-. right. split; [reflexivity|]. eexists. split; [apply S3|].
            split; [eapply same_icov; eauto|]. left. do 2 eexists. split; [reflexivity|]. split; [reflexivity|].
            split; [reflexivity|]. intros Hc. exfalso. eapply N2; [reflexivity|exact Hc].
       * intros H; injection H as <- <-. right. split; [reflexivity|]. eexists. split; [apply S1|].
         split; [eapply same_icov; eauto|]. right. eexists. split; [reflexivity|]. split; [reflexivity|].
-        right. split; [reflexivity|]. do 3 eexists. split; [reflexivity|]. auto.
+        right. split; [exact Eh|]. do 3 eexists. split; [reflexivity|]. auto.
+Qed.
+
+Lemma fold_ext {A} (f : state -> A -> state) (K : A -> key) :
+  (forall acc x, ext (fun k => k = K x) acc (f acc x)) ->
+  forall l s, ext (fun k => exists x, In x l /\ k = K x) s (fold_left f l s).
+Proof.
+  intros HF. induction l as [|x t IH]; intros s; cbn [fold_left]; [apply ext_refl|].
+  eapply ext_trans.
+  - eapply ext_weaken; [|apply (HF s x)]. intros k ->. exists x. split; [left; reflexivity|reflexivity].
+  - eapply ext_weaken; [|apply IH]. intros k [y [Hy ->]]. exists y. split; [right; exact Hy|reflexivity].
+Qed.
+
+Lemma same_finalize_snd c s wr ok : same s (snd (finalize c s wr ok)).
+Proof. destruct (finalize c s wr ok) as [r s2] eqn:EF. apply finalize_spec in EF. apply EF. Qed.
+
+Definition slice_keys (w : world) (i : nat) (pk : key) (slices : list (nat * (N * N))) (k : key) : Prop :=
+  k = pk \/ exists x, In x slices /\ k = flat_key (w_cfg w) (fst x) i.
+
+Lemma step_gfcslice w s tid slices s1 out :
+  step w s (OGfcSlice tid slices) = (s1, out) ->
+  match thr_get (s_threads s) tid with
+  | Some (TGfcErr e) => s1 = thr_rm s tid /\ out = Done e []
+  | Some (TGet o uid l rf fk) =>
+      exists s' code bytes, s1 = thr_rm s' tid /\ out = Done code bytes /\
+        ext (fun k => In k fk) s s' /\
+        (c_validate (w_cfg w) = true -> code = cOK -> bytes = first_slice (content w o) slices)
+  | Some (TGfc p i uid pl rf pk) =>
+      exists s' code bytes, s1 = thr_rm s' tid /\ out = Done code bytes /\
+        ext (fun k => code = 0%Z /\ slice_keys w i pk slices k) s s' /\
+        (c_validate (w_cfg w) = true -> code = cOK -> bytes = first_slice (content w p) slices)
+  | _ => s1 = s /\ out = Bad
+  end.
+Proof.
+  unfold step. cbn [may_take_refresh_lock is_corrupt andb].
+  destruct (thr_get (s_threads s) tid) as [t|] eqn:ET; [|intros H; injection H as <- <-; auto].
+  destruct t as [| |o uid l rf fk|p i uid pl rf pk|e]; try (intros H; injection H as <- <-; auto).
+  - (* TGet *)
+    destruct (get_consume w s o uid l rf fk) as [[code bytes] s'] eqn:EG.
+    apply get_consume_spec in EG. destruct EG as [X V].
+    destruct (Z.eqb code cOK) eqn:EC; intros H; injection H as <- <-.
+    + apply Z.eqb_eq in EC. do 3 eexists. split; [reflexivity|]. split; [reflexivity|]. split; [exact X|].
+      intros Hv _. rewrite <- (V Hv EC). reflexivity.
+    + do 3 eexists. split; [reflexivity|]. split; [reflexivity|]. split; [exact X|].
+      intros _ Hc. subst code. discriminate.
+  - (* TGfc *)
+    cbv zeta.
+    destruct (read_validated w s p uid pl) as [[valid bytes] s1'] eqn:ER.
+    apply read_validated_spec in ER. destruct ER as [S1 V].
+    assert (S1u : same s (unpin (w_cfg w) s1' uid)) by (eapply same_trans; [exact S1|apply same_unpin]).
+    assert (MK : forall ploc s0,
+      ext (fun k => exists x, In x slices /\ k = flat_key (w_cfg w) (fst x) i) s0
+        (fold_left (fun acc '(cho, (off, len)) =>
+                      index_put acc (flat_key (w_cfg w) cho i)
+                        {| l_abs := l_abs ploc; l_off := (l_off ploc + off)%N; l_size := len |}) slices s0)).
+    { intros ploc s0. apply (fold_ext _ (fun x => flat_key (w_cfg w) (fst x) i)).
+      intros acc [cho [off len]]. apply ext_index_put. }
+    destruct valid; cbn [negb].
+    2:{ intros H; injection H as <- <-. do 3 eexists. split; [reflexivity|]. split; [reflexivity|].
+        split; [|intros _ Hc; discriminate]. apply same_ext.
+        destruct rf as [wr|]; [|exact S1u]. destruct (lockstep (w_cfg w)); [|exact S1u].
+        eapply same_trans; [exact S1u|first [apply same_finalize_snd|apply same_unpin]]. }
+    assert (OKC : forall s', ext (fun k => slice_keys w i pk slices k) s s' ->
+       exists s'0 code bytes0, thr_rm s' tid = thr_rm s'0 tid /\
+         Done cOK (match slices with (_, (off, len)) :: _ => slice bytes (N.to_nat off) (N.to_nat len) | [] => [] end)
+           = Done code bytes0 /\
+         ext (fun k => code = 0%Z /\ slice_keys w i pk slices k) s s'0 /\
+         (c_validate (w_cfg w) = true -> code = cOK -> bytes0 = first_slice (content w p) slices)).
+    { intros s' X. do 3 eexists. split; [reflexivity|]. split; [reflexivity|].
+      split; [eapply ext_weaken; [|exact X]; intros k Hk; split; [reflexivity|exact Hk]|].
+      intros Hv _. rewrite <- (V Hv eq_refl). reflexivity. }
+    assert (ERRC : forall s' e, same s s' -> e <> 0%Z ->
+       exists s'0 code bytes0, thr_rm s' tid = thr_rm s'0 tid /\ Done e [] = Done code bytes0 /\
+         ext (fun k => code = 0%Z /\ slice_keys w i pk slices k) s s'0 /\
+         (c_validate (w_cfg w) = true -> code = cOK -> bytes0 = first_slice (content w p) slices)).
+    { intros s' e X Ne. do 3 eexists. split; [reflexivity|]. split; [reflexivity|].
+      split; [apply same_ext; exact X|]. intros _ Hc. contradiction. }
+    destruct rf as [wr|].
+    + destruct (lockstep (w_cfg w)).
+      * match goal with |- context [finalize ?c ?x ?wr ?okk] => destruct (finalize c x wr okk) as [r s3] eqn:EF end.
+        apply finalize_spec in EF. destruct EF as [S3 N3].
+        assert (S3' : same s s3).
+        { eapply same_trans; [exact S1u|]. eapply same_trans; [apply same_write_block|exact S3]. }
+        destruct r as [nl|e]; intros H; injection H as <- <-.
+        -- apply OKC. eapply ext_same_l; [exact S3'|]. eapply ext_trans.
+           ++ eapply ext_weaken; [|apply ext_index_put]. intros k ->. left; reflexivity.
+           ++ eapply ext_weaken; [|apply MK]. intros k Hk. right; exact Hk.
+        -- apply ERRC; [exact S3'|apply N3; reflexivity].
+      * unfold fin_check. destruct (N.ltb (wr_abs wr) (s_tbr (unpin (w_cfg w) s1' uid)));
+          intros H; injection H as <- <-.
+        -- apply ERRC; [exact S1u|discriminate].
+        -- apply OKC. eapply ext_same_l; [exact S1u|].
+           set (nl := {| l_abs := wr_abs wr; l_off := wr_off wr; l_size := wr_size wr |}).
+           apply (ext_trans _ _ (index_put (unpin (w_cfg w) s1' uid) pk nl)).
+           ++ eapply ext_weaken; [|apply ext_index_put]. intros k ->. left; reflexivity.
+           ++ eapply ext_weaken; [|apply (MK nl)]. intros k Hk. right; exact Hk.
+    + destruct (index_get (unpin (w_cfg w) s1' uid) pk) as [pl'|]; intros H; injection H as <- <-.
+      * apply OKC. eapply ext_same_l; [exact S1u|]. eapply ext_weaken; [|apply MK]. intros k Hk. right; exact Hk.
+      * apply OKC. apply same_ext. exact S1u.
 Qed.
